@@ -36,6 +36,18 @@ func probeEnc(a encArg) (string, string) {
 	if err != nil || !bytes.Equal(b, want) {
 		return "layout", fmt.Sprintf("MarshalBinary(%d-%d-%d) = %x, %v; want %x", a.Y, a.M, a.D, b, err, want)
 	}
+	// the caller may scribble over the returned bytes: a later MarshalBinary must not be affected
+	keep := append([]byte(nil), b...)
+	for i := range b {
+		b[i] = 0xFF
+	}
+	b2, err := d.MarshalBinary()
+	bad := err != nil || !bytes.Equal(b2, want)
+	got := fmt.Sprintf("%x", b2)
+	copy(b, keep) // put the bytes back: in a broken tree they may be memory the library still owns, and replays must see the same state
+	if bad {
+		return "layout_after_caller_wrote_into_earlier_result", fmt.Sprintf("MarshalBinary(%d-%d-%d) = %s after the caller overwrote the bytes returned by an earlier call; want %x", a.Y, a.M, a.D, got, want)
+	}
 	for _, pre := range []date.Date{{}, date.New(1999, 12, 31)} {
 		u := pre
 		if err := u.UnmarshalBinary(append([]byte(nil), b...)); err != nil {
@@ -87,7 +99,7 @@ func expectDec(data []byte) (int, int64, int, int) {
 func probeDec(a decArg) (string, string) {
 	data := []byte(a.Data)
 	cls, y, m, d := expectDec(data)
-	for _, pre := range []date.Date{{}, date.New(1999, 12, 31)} {
+	for _, pre := range []date.Date{{}, date.New(1999, 12, 31), date.New(2020, 2, 29), date.New(2023, 1, 31)} {
 		u := pre
 		in := append([]byte(nil), data...)
 		err := u.UnmarshalBinary(in)
@@ -177,7 +189,7 @@ func main() {
 			}
 			dec.Do(w, decArg{Data: mc.Bin(data)})
 		}
-		gridYears := []int64{2022, 2024, 1900, 2000, 0, 1, -1, 9999, 999999999, -999999999, 10000, 4}
+		gridYears := []int64{2022, 2024, 1900, 2000, 0, 1, -1, 9999, 999999999, -999999999, 10000, 4, -4, -96, -100, -196, -200, -400, -1900, -2000, 2100, 999999996, -999999996, 2147483647, -2147483648}
 		r.Phase(fmt.Sprintf("decode: %d years x all 65,536 (month byte, day byte) pairs", len(gridYears)), "complete grid", func() {
 			r.Parallel(int64(len(gridYears))*256, 4, func(w *mc.W, i int64) {
 				y := gridYears[i/256]
